@@ -210,39 +210,45 @@ where
         steps += 1;
     }
 
-    // Shifting by more than the available precision leaves less than half a unit of the last limb.
-    if steps > size {
-        for j in 0..size {
-            ZNXARI::znx_zero(res.at_mut(res_col, j));
-        }
-        return;
-    }
-
     let (carry, tmp) = tmp[..2 * n].split_at_mut(n);
 
     let lsh: usize = (base2k - k_rem) % base2k;
 
     // All limbs of a that would fall outside of the limbs of res are discarded,
     // but the carry still need to be computed.
-    for j in 0..steps {
+    // When the shift exceeds the column's precision (`steps > size`) every limb is discarded and the
+    // positions between the last discarded limb and the first limb of res hold no data.
+    let discarded: usize = steps.min(size);
+    if discarded == 0 {
+        // No limb is discarded (k == 0 or an empty column): the carry starts at zero, not at whatever `tmp` held.
+        ZNXARI::znx_zero(carry);
+    }
+    for j in 0..discarded {
         if j == 0 {
             ZNXARI::znx_normalize_first_step_carry_only(base2k, lsh, res.at(res_col, size - j - 1), carry);
         } else {
             ZNXARI::znx_normalize_middle_step_carry_only(base2k, lsh, res.at(res_col, size - j - 1), carry);
         }
     }
+    if steps > size {
+        // Ripple the carry through the empty positions (zero limbs).
+        ZNXARI::znx_zero(tmp);
+        for _ in size..steps {
+            ZNXARI::znx_normalize_middle_step_carry_only(base2k, lsh, tmp, carry);
+        }
+    }
 
     // Continues with shifted normalization
-    for j in 0..size - steps {
-        ZNXARI::znx_copy(tmp, res.at(res_col, size - steps - j - 1));
+    for j in 0..size - discarded {
+        ZNXARI::znx_copy(tmp, res.at(res_col, size - discarded - j - 1));
         ZNXARI::znx_normalize_middle_step_assign(base2k, lsh, tmp, carry);
         ZNXARI::znx_copy(res.at_mut(res_col, size - j - 1), tmp);
     }
 
     // Propagates carry on the rest of the limbs of res: the discarded limbs are zero,
     // the carry ripples from limb `steps - 1` up to limb 0 (which takes the final step).
-    for j in 0..steps {
-        let limb: usize = steps - j - 1;
+    for j in 0..discarded {
+        let limb: usize = discarded - j - 1;
         ZNXARI::znx_zero(res.at_mut(res_col, limb));
         if limb == 0 {
             ZNXARI::znx_normalize_final_step_assign(base2k, lsh, res.at_mut(res_col, limb), carry);
